@@ -1,4 +1,4 @@
-// GENERATED COPY of harness/c01/src/main.rs lines 6-617 (from the first `use` to just before
+// GENERATED COPY of harness/c01/src/main.rs lines 6-626 (from the first `use` to just before
 // `fn run_input`: JSON order language, time scales, conversions to the real types, Coq printers,
 // engine builder / order-op application). Regenerate after changing that part of c01. Included
 // textually by main.rs.
@@ -490,7 +490,16 @@ fn op_tag(cur: Option<&ActiveOrder>, op: &OpJ) -> String {
             StJ::Open { m } => format!(
                 "snapOpen.{}.{}",
                 cmp_class(cur, m.t),
-                if (dec(&o.qty) - dec(&m.f)).is_zero() { "full" } else { "left" }
+                {
+                    let rem = dec(&o.qty) - dec(&m.f);
+                    if rem.is_zero() {
+                        "full"
+                    } else if rem.is_sign_negative() {
+                        "over"
+                    } else {
+                        "left"
+                    }
+                }
             ),
             StJ::CIF { m: None } => "snapCIFn".to_string(),
             StJ::CIF { m: Some(m) } => format!("snapCIFs.{}", cmp_class(cur, m.t)),
